@@ -2,7 +2,7 @@
     implementation's outcome (the failing-input search).  Cases: see harness/src/c19.rs. *)
 From Base Require Import Prelude Sx EnumDecl.
 From Gen Require Import StringEnums.
-From C19 Require Import Model Spec Bridge.
+From C19 Require Import Model Spec Bridge SpecSpellings.
 
 (** the declarations compiled into the harness; [true] = the type has [AsRef<str>] *)
 Definition run_decls : list (decl * bool) :=
@@ -98,6 +98,23 @@ Definition spec_variant (t : table) (i : nat) (impl : sx) : bool :=
   | None, _ => true
   end.
 
+(** a spelling the specification defines (hand table [SpecSpellings.spec_spellings]) must come out as a
+    dedicated variant - not the fallback - that prints as that spelling *)
+Fixpoint spellings_of (name : str) (l : list (str * list str)) : list str :=
+  match l with [] => [] | (n, ss) :: r => if str_eqb n name then ss else spellings_of name r end.
+
+Definition specified_ok (d : decl) (s : str) (impl : sx) : bool :=
+  if mem_str s (spellings_of (d_name d) spec_spellings) then
+    match impl with
+    | SL [SN 0; SL (idx :: SS disp :: _)] =>
+        match as_nat idx with
+        | Some i => negb (Nat.eqb i (fallback_pos (d_variants d) 0)) && str_eqb disp s
+        | None => false
+        end
+    | _ => false
+    end
+  else true.
+
 Definition run (x : sx) : sx :=
   match x with
   | SL [SL (SS name :: SN k :: args); impl] =>
@@ -106,7 +123,7 @@ Definition run (x : sx) : sx :=
       | Some (d, has_as_ref) =>
           let t := table_of d in
           match k, args with
-          | 0%Z, [SS s] => SL [model_one d has_as_ref s; sx_bool (spec_one t s impl)]
+          | 0%Z, [SS s] => SL [model_one d has_as_ref s; sx_bool (spec_one t s impl && specified_ok d s impl)]
           | 1%Z, [SS a; SS b] => SL [model_pair d a b; sx_bool (spec_pair t a b impl)]
           | 2%Z, [i] => match as_nat i with
                         | Some i => SL [model_variant d i; sx_bool (spec_variant t i impl)]
